@@ -455,6 +455,44 @@ def cli_part(ctx):
     return acc
 
 
+def shard_traj_cli(cases):
+    """evo_traj --align / --correct_scale with --n_to_align over two files
+    of different lengths in both orders: every file is aligned on its own
+    first n pose pairs (C15's reference pipeline)"""
+    import tempfile
+    from mc.checks import c15
+    acc = Acc()
+    wd = tempfile.mkdtemp(dir=os.getcwd(), prefix="c04cli_")
+    old = os.getcwd()
+    os.chdir(wd)
+    try:
+        c15.write_fixture(wd)
+        for case in cases:
+            msgs, outcome = c15.run_point(case)
+            acc.count("evaluations")
+            acc.count("transitions")
+            acc.count("nontrivial")
+            acc.outcome("evo_traj/" + outcome.split(":")[0])
+            if msgs:
+                acc.violation("traj-cli", "evo_traj %s: %s" % (
+                    " ".join(c15.argv_of(case)[0]), "; ".join(msgs[:2])),
+                    case, {"kind": "traj-cli"})
+    finally:
+        os.chdir(old)
+    return acc
+
+
+def traj_cli_cases():
+    from mc.checks import c15
+    return [{"nfiles": 2, "order": order, "downsample": None,
+             "motion_filter": None, "merge": False, "t_offset": 0.0,
+             "align": al, "n_to_align": n, "transform": c15.TRANSF[0],
+             "project": None, "export": "tum", "t_max_diff": tm}
+            for order in (None, "swapped")
+            for al in ("a", "s", "as", "origin", "s+origin")
+            for n in (-1, 3, 4, 7) for tm in (0.01, 0.3)]
+
+
 def all_seqs(maxn):
     out = []
     for n in range(3, maxn + 1):
@@ -469,6 +507,7 @@ def run(ctx):
     rec = [s for s in all_seqs(ctx.pick(4, 5))]
     acc.merge(pmap_acc(ctx, __name__, "shard_recorded", shard(rec, 32)))
     acc.merge(cli_part(ctx))
+    acc.merge(pmap_acc(ctx, __name__, "shard_traj_cli", [traj_cli_cases()]))
     acc.counters["states"] = acc.counters["evaluations"]
     acc.rule = (
         "estimate = every grid path of 3..%d poses over a 5-step alphabet "
@@ -490,6 +529,9 @@ def replay(part, case):
         return run_case(case)[0]
     if part == "recorded":
         return run_recorded(case)
+    if part == "traj-cli":
+        case = dict(case, transform=tuple(case["transform"]))
+        return [v["msg"] for v in shard_traj_cli([case]).violations]
     if part == "cli":
         class _C(object):
             workdir = os.getcwd()
